@@ -11,20 +11,22 @@ open VersionSet
 section
 variable {P S V M : Type} [DecidableEq P] [VersionSet S V] [DecidableEq S]
 
-/-- the sets the solver can ever build for package `p`: dependency sets on `p`, singletons of offered
+/-- the sets the solver can ever build for package `p`: dependency sets on `p` declared by offered
+versions of the packages `pkgs`, singletons of offered
 versions of `p` and of the requested root version, closed under the set operations -/
-inductive GeneratedSet (W : World P S V M) (root : P) (rv : V) (p : P) : S → Prop
+inductive GeneratedSet (W : World P S V M) (root : P) (rv : V) (pkgs : List P) (p : P) : S → Prop
   | dep (q : P) (v : V) (ds : List (P × S)) (s : S) :
-      v ∈ W.versions q → W.deps q v = .available ds → (p, s) ∈ ds → GeneratedSet W root rv p s
-  | version (v : V) : v ∈ W.versions p → GeneratedSet W root rv p (singleton v)
-  | rootVersion : p = root → GeneratedSet W root rv p (singleton rv)
-  | empty : GeneratedSet W root rv p (empty : S)
-  | full : GeneratedSet W root rv p (full : S)
-  | complement (a : S) : GeneratedSet W root rv p a → GeneratedSet W root rv p (complement a)
-  | intersection (a b : S) : GeneratedSet W root rv p a → GeneratedSet W root rv p b →
-      GeneratedSet W root rv p (intersection a b)
-  | union (a b : S) : GeneratedSet W root rv p a → GeneratedSet W root rv p b →
-      GeneratedSet W root rv p (union a b)
+      q ∈ pkgs → v ∈ W.versions q → W.deps q v = .available ds → (p, s) ∈ ds →
+      GeneratedSet W root rv pkgs p s
+  | version (v : V) : v ∈ W.versions p → GeneratedSet W root rv pkgs p (singleton v)
+  | rootVersion : p = root → GeneratedSet W root rv pkgs p (singleton rv)
+  | empty : GeneratedSet W root rv pkgs p (empty : S)
+  | full : GeneratedSet W root rv pkgs p (full : S)
+  | complement (a : S) : GeneratedSet W root rv pkgs p a → GeneratedSet W root rv pkgs p (complement a)
+  | intersection (a b : S) : GeneratedSet W root rv pkgs p a → GeneratedSet W root rv pkgs p b →
+      GeneratedSet W root rv pkgs p (intersection a b)
+  | union (a b : S) : GeneratedSet W root rv pkgs p a → GeneratedSet W root rv pkgs p b →
+      GeneratedSet W root rv pkgs p (union a b)
 
 /-- The registry is finite: finitely many packages are involved (the root and, transitively, the
 dependencies of offered versions; `versions p` is a list, hence finite, already), and for each package finitely many
@@ -36,7 +38,7 @@ structure FiniteWorld (W : World P S V M) (root : P) (rv : V) where
   root_mem : root ∈ pkgs
   deps_mem : ∀ p v ds, v ∈ W.versions p → W.deps p v = .available ds → ∀ d ∈ ds, d.1 ∈ pkgs
   tests : P → List V
-  separated : ∀ p a b, GeneratedSet W root rv p a → GeneratedSet W root rv p b →
+  separated : ∀ p a b, GeneratedSet W root rv pkgs p a → GeneratedSet W root rv pkgs p b →
     (∀ v ∈ tests p, contains a v = contains b v) → ∀ v : V, contains a v = contains b v
 
 end
